@@ -48,6 +48,7 @@ def parseConst (wide : Bool) (p : String) : Option Val :=
     | some n => if ds.length ≤ 4 then some (.int n) else none
     | none => none
   | ['c', c] => some (.ch (decodeChar wide c))
+  | 's' :: cs => some (cs.foldr (fun c acc => .cons (.ch (decodeChar wide c)) acc) .nil)
   | _ => none
 
 /-- prefix-notation parser; `nrules` bounds `ref:<i>`.  `typed`: the grammar is instantiated with its natural result
@@ -63,11 +64,24 @@ def parseP (typed wide : Bool) (nrules : Nat) : Nat → List String → Option (
       | none => none
     let bin (k : P → P → P) : Option (P × List String) :=
       match parseP typed wide nrules fuel ts with
-      | some (a, r) => match parseP typed wide nrules fuel r with
-        | some (b, r') => some (k a b, r')
-        | none => none
+      | some (a, r) =>
+        -- `same`: the second operand is the very same parser object as the first (typed family only)
+        match r with
+        | "same" :: r' => if typed then some (k a a, r') else none
+        | _ => match parseP typed wide nrules fuel r with
+          | some (b, r') => some (k a b, r')
+          | none => none
       | none => none
     match nameParam t with
+    -- how the operand is handed to the enclosing combinator (a copy of a named parser object, by fcppt::reference, by
+    -- base_unique_ptr): no effect on the semantics
+    | ("copy", none) => if typed then un id else none
+    | ("cref", none) => if typed then un id else none
+    | ("box", none) => if typed then un id else none
+    -- fcppt::parse::space() / blank() / digits<Ch>()
+    | ("spc", none) => some (.cset [32, 10, 9], ts)
+    | ("blk", none) => some (.cset [32, 9], ts)
+    | ("dig", none) => some (.cset digits, ts)
     | ("eps", none) => some (.eps, ts)
     | ("fail", none) => some (.fail, ts)
     | ("any", none) => some (.any, ts)
@@ -299,13 +313,13 @@ def enumLine (one : List Nat → String) (alpha : List Nat) (maxlen : Nat) : Str
 def setup (typed : Bool) (ce sk gr : String) : Option (Bool × Bool × Sk × G × P) :=
   match ce.toList with
   | [c, e] =>
-    if (c = 'c' ∨ c = 'w') ∧ (e = 'p' ∨ e = 'h' ∨ e = 'g' ∨ e = 's' ∨ e = 'r') ∧ (typed → (e = 'p' ∨ e = 'h')) then
+    if (c = 'c' ∨ c = 'w') ∧ (e = 'p' ∨ e = 'h' ∨ e = 'g' ∨ e = 's' ∨ e = 'r' ∨ e = 'q' ∨ e = 't') ∧ (typed → (e = 'p' ∨ e = 'h')) then
       let wide := c = 'w'
       match parseSk wide sk, parseGrammar typed wide gr with
       | some sk, some (p :: rs) =>
-        if e = 'p' ∧ sk ≠ .eps then none
+        if (e = 'p' ∨ e = 'q' ∨ e = 't') ∧ sk ≠ .eps then none
         else if typed ∧ !rs.isEmpty then none
-        else some (wide, e = 's' ∨ e = 'r', sk, mkG (p :: rs), p)
+        else some (wide, e = 's' ∨ e = 'r' ∨ e = 'q' ∨ e = 't', sk, mkG (p :: rs), p)
       | _, _ => none
     else none
   | _ => none
